@@ -50,20 +50,6 @@ package router_info
 //@   ensures @C07 err == nil ==> ishash(h, keys_and_cert.KacWire(router_info.router_identity.KeysAndCert))
 //@   modifies nothing
 
-// C01 / C05 (thorough tier): what VerifySignature verifies - the serialisation
-// without the signature - is exactly the prefix of the bytes the RouterInfo was
-// parsed from, and Bytes() reproduces all consumed bytes.
-//@ option C01_C05_ReadRouterInfo_T nocontract RouterInfo.serializeWithoutSignature RouterInfo.Bytes
-//@ lemma C01_C05_ReadRouterInfo_T(data []byte) {
-//@   ri, rem, err := ReadRouterInfo(data)
-//@   if err == nil {
-//@     s, e := (&ri).serializeWithoutSignature()
-//@     assert(e == nil && len(s) <= len(data) && seqeq(s, data[:len(s)]))
-//@     b, e2 := (&ri).Bytes()
-//@     assert(e2 == nil && len(rem) <= len(data) && seqeq(b, data[:len(data)-len(rem)]))
-//@   }
-//@ }
-
 // C09: the RouterIdentity inside an accepted RouterInfo obeys the key-type policy.
 //@ lemma C09_ReadRouterInfo(data []byte) {
 //@   ri, _, err := ReadRouterInfo(data)
